@@ -121,24 +121,30 @@ class AsyncTLSStreamTransport(AsyncStreamTransport):
         if shutdown_timeout is None:
             shutdown_timeout = constants.SSL_SHUTDOWN_TIMEOUT
 
-        read_bio = _ssl_module.MemoryBIO()
-        write_bio = _ssl_module.MemoryBIO()
-        ssl_object = ssl_context.wrap_bio(
-            read_bio,
-            write_bio,
-            server_side=server_side,
-            server_hostname=server_hostname,
-            session=session,
-        )
+        try:
+            read_bio = _ssl_module.MemoryBIO()
+            write_bio = _ssl_module.MemoryBIO()
+            ssl_object = ssl_context.wrap_bio(
+                read_bio,
+                write_bio,
+                server_side=server_side,
+                server_hostname=server_hostname,
+                session=session,
+            )
 
-        self = cls(
-            _transport=transport,
-            _standard_compatible=bool(standard_compatible),
-            _shutdown_timeout=float(shutdown_timeout),
-            _ssl_object=ssl_object,
-            _read_bio=read_bio,
-            _write_bio=write_bio,
-        )
+            self = cls(
+                _transport=transport,
+                _standard_compatible=bool(standard_compatible),
+                _shutdown_timeout=float(shutdown_timeout),
+                _ssl_object=ssl_object,
+                _read_bio=read_bio,
+                _write_bio=write_bio,
+            )
+        except BaseException:
+            # wrap() owns the transport from the moment it is called: do not leave it open if the SSL object cannot be created
+            # (e.g. invalid server_hostname).
+            await aclose_forcefully(transport)
+            raise
 
         try:
             with transport.backend().timeout(handshake_timeout):
